@@ -154,9 +154,25 @@ REG.assumptions["string.Formatter.parse"] = ("X-STD: Formatter().parse(p) yields
 def copy_copy(eng, s, args, kwargs):
     (x,) = args
     x = eng.as_val(s, x)
+    if x.ty is None:
+        t = eng.static_ty(s, x, ["obj:Tree", "obj:Token", "dict", "list"])
+        if t is not None:
+            x = eng.with_ty(s, x, t)
+    if x.ty is not None and x.ty.startswith("obj:") and eng.reg.class_kind(x.ty[4:]) is None:
+        # shallow copy of a plain object: a new object of the same class with the same attribute values
+        cls = x.ty[4:]
+        ref = eng.alloc(s, cls)
+        schema = eng.reg.classes.get(cls)
+        for c in eng.reg.mro(cls):
+            k = eng.reg.classes.get(c)
+            for fname in (k.fields if k else {}):
+                s.heap = s.heap.set_field(ref, fname, s.heap.get_field(x.ref, fname))
+        return [(sv_ref(ref, x.ty), s)]
+    if x.ty == "list":
+        return [(eng.new_list(s, s.heap.llen(x.ref), s.heap.lelems(x.ref), "list"), s)]
     if x.ty != "dict":
         from pyvc.engine import Unsupported
-        raise Unsupported("copy.copy of non-dict")
+        raise Unsupported("copy.copy of " + str(x.ty))
     h = s.heap
     ref = eng.alloc(s, "dict")
     hh = s.heap.copy()
